@@ -534,6 +534,14 @@ class Interp:
                 return
             inner = (bv.items or {}).get(kk, UNKNOWN)
             return self.store(target, inner, subs[1:], v, st, stmt, op)
+        elif bv.kind in ("cfgdict", "options") and subs:
+            k = self.eval(subs[0], st)
+            key = k.tmpl if (k.kind == "str" and k.tmpl is not None) else None
+            if len(subs) == 1:
+                self.emit("cfg_mutation", stmt, st, src=bv.cx, method="__setitem__", key=key, args=[v], op=op)
+                return
+            inner = self.cfg_value(bv, key, stmt, st) if bv.kind == "cfgdict" else self.option_value(key or "?", st, stmt)
+            return self.store(target, inner, subs[1:], v, st, stmt, op)
         elif bv.kind in ("list",) and subs and bv.obj is None:
             self.emit("list_store", stmt, st, val=v, base=bv, target=unparse(target))
             return
@@ -1313,7 +1321,7 @@ class Interp:
                         syms |= {y.name for y in sp.sympify(x).free_symbols}
                 if any(y.startswith("OFF_") for y in syms):
                     dim = shape[ax] if (shape is not None and ax < len(shape)) else None
-                    self.emit("offslice", n, st, lo=lo, hi=hi, step=stp, axis=ax, dim=dim, text=text, base=base, whole_view=(base.view == "whole" or base.obj is None))
+                    self.emit("offslice", n, st, lo=lo, hi=hi, step=stp, axis=ax, dim=dim, text=text, base=base, whole_view=(base.view == "whole" or base.obj is None), lo_src=unparse(e.lower) if (isinstance(e, ast.Slice) and e.lower is not None) else None, hi_src=unparse(e.upper) if (isinstance(e, ast.Slice) and e.upper is not None) else None)
             ax += 1
 
     def sub_shape(self, shape, slnode, sv):
